@@ -170,6 +170,15 @@ def rule_u2(ctx):
                             have.add((v, cl))
                     if lo and ro and lo != ro:
                         have.add(("x", "y"))
+        # the same tests as literal patterns (`match (x, y) { (0, _) => .. }`): integer switches on the operand itself
+        for b in range(body.n):
+            t = body.term(b)
+            if t and t["k"] == "switch" and t["discr"]["k"] in ("copy", "move") and not body.blocks[b]["cleanup"] and \
+                    body.locals[t["discr"]["place"]["l"]]["ty"] not in ("bool", "isize") and body.switch_info(b) is None:
+                vs = {x for x in ("x", "y") if any(rr == ("arg", 2 if x == "x" else 3) for (rr, pp) in body.trace_operand(t["discr"]))}
+                for val, _ in t["targets"]:
+                    for v in vs:
+                        have.add((v, val))
         want = [("x", 0), ("y", 0), ("x", "y")] + ([("x", 1), ("y", 1)] if variant == "And" else [])
         for w in want:
             if w in have:
